@@ -2149,7 +2149,7 @@ func (c *fctx) threadedVars(call *ast.CallExpr) []*types.Var {
 			}
 		}
 	}
-	if sel, ok := ast.Unparen(call.Fun).(*ast.SelectorExpr); ok && f.Name() == "Write" {
+	if sel, ok := ast.Unparen(call.Fun).(*ast.SelectorExpr); ok && (f.Name() == "Write" || f.Name() == "Close") {
 		if sn := c.info().Selections[sel]; sn != nil {
 			if lt, _ := leanTypeOf(sn.Recv()); lt == "δ" {
 				if id, ok := ast.Unparen(sel.X).(*ast.Ident); ok {
@@ -2536,6 +2536,10 @@ func (c *fctx) stmt(e *emitter, ind int, s ast.Stmt) {
 		}
 		e.add(ind, "let _ := "+c.expr(call))
 	case *ast.DeferStmt:
+		// a defer registered under a condition or in a loop runs only if control passed it: not modelled
+		if ind != 1 || c.lc != nil {
+			c.fail(s, "defer inside a block, a branch or a loop")
+		}
 		// defer x.m(…) with x of an opaque type: the (abstract) call runs at every return, like a deferred closure
 		if sel, isSel := ast.Unparen(st.Call.Fun).(*ast.SelectorExpr); isSel && c.lc == nil {
 			if lt, ok := leanTypeOf(c.typeOf(sel.X)); ok && len([]rune(lt)) == 1 {
@@ -3393,8 +3397,16 @@ func (t *ftr) translate(fi *FuncInfo, from *fctx, at ast.Node) string {
 		}
 		c.stmt(e, 1, s)
 	}
-	// falling off the end of a function without results
+	// falling off the end of a function without results: the deferred calls run, then it returns
 	if sig.Results().Len() == 0 {
+		if !c.stopped {
+			saved := c.deferred
+			c.deferred = nil
+			for i := len(saved) - 1; i >= 0; i-- {
+				c.stmt(e, 1, saved[i])
+			}
+			c.deferred = saved
+		}
 		e.add(1, "return "+c.retExpr(nil))
 	} else if n := len(fi.Decl.Body.List); n > 0 {
 		if fs, ok := fi.Decl.Body.List[n-1].(*ast.ForStmt); ok && fs.Cond == nil {
